@@ -151,6 +151,23 @@ func submit(st *reftable.Stack, s step12) (accepted bool, err error) {
 	case "add":
 		e := st.Add(func(wr *reftable.Writer) error { return writeRecs(wr, s.Recs, st.NextUpdateIndex()) })
 		return e == nil, e
+	case "splitc":
+		// a caller that goes on after a refused table and commits what was accepted
+		tr, e := st.NewAddition()
+		if e != nil {
+			return false, e
+		}
+		defer tr.Close()
+		ui := st.NextUpdateIndex()
+		n := 0
+		for _, r := range s.Recs {
+			u := ui + uint64(n)
+			if e := tr.Add(func(wr *reftable.Writer) error { return writeRecs(wr, []rec12{r}, u) }); e == nil {
+				n++
+			}
+		}
+		e = tr.Commit()
+		return e == nil, e
 	case "split":
 		tr, e := st.NewAddition()
 		if e != nil {
@@ -224,6 +241,18 @@ func run12(h *hist12, res *result, checkAll bool) (final state12, ok bool) {
 					return nil
 				}
 				s.tombs = map[string]bool{}
+			} else if step.Form == "splitc" {
+				// every table is a step of its own: refused tables are skipped, the rest is committed
+				if serr != nil {
+					viol("names:commit-after-refused-table-fails", fmt.Sprintf("%s: Commit failed: %v", step, serr))
+					ok = false
+					return nil
+				}
+				for _, r := range step.Recs {
+					if ok1, nxt := modelApply(s, []rec12{r}); ok1 {
+						s = nxt
+					}
+				}
 			} else {
 				want, next := modelApply(s, step.Recs)
 				if serr == reftable.ErrLockFailure {
@@ -319,6 +348,7 @@ func runC12(tier string, wi, wn int, res *result) {
 			steps = append(steps, step12{Form: "add", Recs: t})
 			if len(t) == 2 {
 				steps = append(steps, step12{Form: "split", Recs: t}, step12{Form: "split", Recs: []rec12{t[1], t[0]}})
+				steps = append(steps, step12{Form: "splitc", Recs: t}, step12{Form: "splitc", Recs: []rec12{t[1], t[0]}})
 			}
 		}
 		for _, st := range steps {
@@ -326,6 +356,13 @@ func runC12(tier string, wi, wn int, res *result) {
 			var next state12
 			if st.Form == "compactall" {
 				next = state12{live: n.s.live, tombs: map[string]bool{}}
+			} else if st.Form == "splitc" {
+				next = n.s
+				for _, r := range st.Recs {
+					if ok1, nxt := modelApply(next, []rec12{r}); ok1 {
+						next = nxt
+					}
+				}
 			} else {
 				_, next = modelApply(n.s, st.Recs)
 			}
